@@ -126,8 +126,8 @@ def run_case(ctx, p):
         # matrix; the comparison tolerance is RTOL for cond(N) <= 1e4 and grows linearly beyond (measured: p_cov moves by ~eps*cond(N))
         Xd = rec0["X"].toarray() * np.sqrt(np.abs(rec0["w"]))[:, None]
         sv = np.linalg.svd(Xd / np.maximum(np.linalg.norm(Xd, axis=0), 1e-300), compute_uv=False)
-        free_null = len(f.trans_att) if f.double else 0   # double ended with splices: one non-estimable direction per splice, by construction
-        if int(np.sum(sv > 1e-9 * sv[0])) < Xd.shape[1] - free_null:
+        from vlib import refdesign
+        if not refdesign.identifiable(case):   # decided on the generator's own layout
             ctx.count("skipped-not-identifiable")   # e.g. a single bath temperature on one side of a splice: the fit is not unique, so nothing is claimed
             return
         sv = sv[sv > 1e-9 * sv[0]]
